@@ -34,15 +34,15 @@ import (
 )
 
 type replay struct {
-	Scenario string   `json:"scenario"` // "bfs", "grid", "evict-limit", "coinbase-reorg", "race"
-	World    string   `json:"world,omitempty"`
-	Policy   string   `json:"policy,omitempty"`
-	Hist     []string `json:"hist,omitempty"`
-	Trace    []string `json:"trace,omitempty"`
+	Scenario string    `json:"scenario"` // "bfs", "grid", "evict-limit", "coinbase-reorg", "race"
+	World    string    `json:"world,omitempty"`
+	Policy   string    `json:"policy,omitempty"`
+	Hist     []string  `json:"hist,omitempty"`
+	Trace    []string  `json:"trace,omitempty"`
 	Grid     *gridCase `json:"grid,omitempty"`
-	N        int      `json:"n,omitempty"`
-	Shape    string   `json:"shape,omitempty"`
-	Report   string   `json:"report,omitempty"`
+	N        int       `json:"n,omitempty"`
+	Shape    string    `json:"shape,omitempty"`
+	Report   string    `json:"report,omitempty"`
 }
 
 var (
@@ -711,7 +711,7 @@ func main() {
 	r.Set("bounds", map[string]interface{}{
 		"main_universe": names, "std_universe": snames,
 		"events_per_state_main": len(worlds["main"].AllEvents()), "events_per_state_std": len(worlds["std"].AllEvents()),
-		"policies": []string{"default", "nopriority(DisableRelayPriority)", "rejectrbf", "orphans0", "orphans1", "orphans2(MaxOrphanTxSize=71)", "standard(AcceptNonStd=false)", "std-orphan1"},
+		"policies":              []string{"default", "nopriority(DisableRelayPriority)", "rejectrbf", "orphans0", "orphans1", "orphans2(MaxOrphanTxSize=71)", "standard(AcceptNonStd=false)", "std-orphan1"},
 		"min_relay_fee_per_kvb": c10h.MinRelayPerKB,
 	})
 	base.DrainPool()
